@@ -2,13 +2,13 @@
    Memfs/Spec.v is a plain reference tree filesystem written from the trait documentation: one flat map from absolute
    paths to nodes and a working directory, no child lists, no separate data index. Memfs/Refine.v proves that the
    line-by-line mirror of Memfs (three redundant indexes; held equal to the real Memfs state-for-state by the
-   correspondence check) REFINES it for the single-target calls mkfile, write_all, append_all, reads, remove and
-   set_cwd and for the queries: from every state reachable by ANY history of calls (reachable states are well formed
+   correspondence check) REFINES it for the single-target calls mkfile, mkdir_p / mkdir_m, write_all, append_all, reads,
+   remove, symlink and set_cwd and for the queries: from every state reachable by ANY history of calls (reachable states are well formed
    and kind-sound: C03 + Memfs/Kinds.v, both proved for every call) each of these calls returns exactly the reference
    call's value or error kind and leaves exactly the reference call's tree. move_p is specified exactly and proved in
-   Memfs/WfMove.v (C09). PARTIAL: mkdir_p / mkdir_m, symlink, remove_all, copy, chmod and chown are compared with the
-   real code state-for-state and judged on pre/post snapshots, and proved safe (no panic, well formed, kind-sound),
-   but their reference-level specification is not yet a theorem. *)
+   Memfs/WfMove.v (C09). PARTIAL: remove_all, copy, chmod and chown are compared with the real code state-for-state
+   and judged on pre/post snapshots, and proved safe (no panic, well formed, kind-sound), but their reference-level
+   specification is not yet a theorem. *)
 From stdpp Require Import gmap.
 From Coq Require Import NArith.
 From RV Require Import Base.Str Path.Helpers Path.Expand Memfs.State Memfs.Ops Memfs.Step Memfs.Wf Memfs.WfMore Memfs.WfMove
@@ -59,6 +59,23 @@ Theorem C01_set_cwd_refines : forall env m s p, WF m -> kinds_ok m -> resolve en
   let '(m', r) := set_cwd_op env m s in abs m' = (spec_set_cwd (abs m) p).1 /\ r = (spec_set_cwd (abs m) p).2.
 Proof. exact set_cwd_refines. Qed.
 Print Assumptions C01_set_cwd_refines.
+
+Theorem C01_mkdir_p_refines : forall m p mode, WF m -> kinds_ok m ->
+  let '(m', r) := mkdir_m_abs m p mode in
+  abs m' = (spec_mkdirs (abs m) ([] :: prefixes (rev p) []) (def_mode_dir mode) def_uid def_gid).1 /\
+  r = (spec_mkdirs (abs m) ([] :: prefixes (rev p) []) (def_mode_dir mode) def_uid def_gid).2.
+Proof. exact mkdir_p_refines. Qed.
+Print Assumptions C01_mkdir_p_refines.
+
+Theorem C01_symlink_refines : forall m lp tp, WF m -> kinds_ok m ->
+  let to_dir := match m_ents m !! tp with Some x => e_dir x | None => false end in
+  let e := new_link lp tp to_dir in
+  let '(m', r) := if bool_decide (is_Some (m_ents m !! lp)) then (m, inr EExistsAlready)
+                  else match lp with [] => (m, inr EParentNotFound) | _ => add m e end in
+  abs m' = (spec_symlink (abs m) lp tp (e_mode e) def_uid def_gid (e_rel e)).1 /\
+  r = (spec_symlink (abs m) lp tp (e_mode e) def_uid def_gid (e_rel e)).2.
+Proof. exact symlink_refines. Qed.
+Print Assumptions C01_symlink_refines.
 
 Theorem C01_queries_refine : forall m p, kinds_ok m ->
   bool_decide (is_Some (m_ents m !! p)) = spec_exists (abs m) p /\
